@@ -339,6 +339,19 @@ func (c08) Case(c *core.Ctx) {
 		c.Violate("c08-valuesforkey", "ValuesForKey differs from the reference key search", det)
 		return
 	}
+	// asked again (same receiver, same key - and once more on an equal Map built separately): same answer
+	if again, e := m.ValuesForKey(k); e != nil || !jv.MultisetEqual(again, want) {
+		det["second_call"], det["err"] = jv.Show(again), fmt.Sprint(e)
+		c.Violate("c08-valuesforkey", "ValuesForKey returns something else when asked a second time", det)
+		return
+	}
+	if r.Intn(4) == 0 {
+		if again, e := mxj.Map(jv.Copy(root).(jv.M)).ValuesForKey(k); e != nil || !jv.MultisetEqual(again, want) {
+			det["on_equal_copy"], det["err"] = jv.Show(again), fmt.Sprint(e)
+			c.Violate("c08-valuesforkey", "ValuesForKey on an equal Map built separately returns something else", det)
+			return
+		}
+	}
 	v1, e1 := m.ValueForKey(k)
 	if len(got) == 0 {
 		if e1 != mxj.KeyNotExistError {
